@@ -21,6 +21,9 @@
 EXTENDS Integers, Sequences
 
 CONSTANTS Plus(_, _), Minus(_, _), Mul(_, _), DivN(_, _), Lt(_, _), Le(_, _),
+          KeepHistory,            \* TRUE: `out` records the yielded times (E1); FALSE: not (long recorded traces)
+          LtC(_, _), LeC(_, _),   \* comparisons used by the controller clamps only (exact over ticks; with a
+                                  \* relative slack over doubles, where the clamps hold up to rounding)
           Defects      \* subset of {"ClipBeforeHandOver","ShortenToEnd","ShortenRoundsUp"}
 
 (* cfg is the run's configuration, never changed by a step:
@@ -52,7 +55,11 @@ Init(c) ==
   /\ time = c.t0 /\ dt = c.dt0 /\ phase = "plain" /\ k = 0 /\ hist = <<>> /\ saveTime = c.t0
   /\ noSent = FALSE /\ stat = "run" /\ obs = <<"init">> /\ out = <<>>
 
-Yield(t) == obs' = <<"item", t>> /\ out' = Append(out, t)
+Yield(t) == obs' = <<"item", t>> /\ out' = IF KeepHistory THEN Append(out, t) ELSE out
+\* t + d + d + ... (i times): the start-up advances the time by repeated addition, which over doubles is
+\* not t + i*d
+RECURSIVE RepAdd(_, _, _)
+RepAdd(t, d, i) == IF i = 0 THEN t ELSE Plus(RepAdd(t, d, i - 1), d)
 Silent == obs' = <<"redo">> /\ UNCHANGED out
 Min(a, b) == IF Le(a, b) THEN a ELSE b
 
@@ -61,17 +68,17 @@ Min(a, b) == IF Le(a, b) THEN a ELSE b
 (***************************************************************************)
 \* rk: dt2 = clamp(q*dt) with q in [0.1, 4], then min with DtMax; accept has q >= 0.84, reject q < 0.84
 RkNextOk(d, dt2, accept) ==
-  /\ Le(dt2, DtMax) /\ Le(dt2, Mul(4, d)) /\ Le(d, Mul(10, dt2))
-  /\ accept => Le(Mul(84, d), Mul(100, dt2))
-  /\ ~accept => Lt(Mul(100, dt2), Mul(84, d))
+  /\ LeC(dt2, DtMax) /\ LeC(dt2, Mul(4, d)) /\ LeC(d, Mul(10, dt2))
+  /\ accept => LeC(Mul(84, d), Mul(100, dt2))
+  /\ ~accept => LtC(Mul(100, dt2), Mul(84, d))
 \* adams: growth q in (1, 4] capped by DtMax (dt2 = dt possible when already at DtMax); shrink q in [0.1, 1)
 \* bdf:   growth *2 capped, shrink /2
 GrowOk(d, dt2) ==
   IF Kind = "bdf" THEN dt2 = Min(Mul(2, d), DtMax)
-  ELSE Le(d, dt2) /\ Le(dt2, Mul(4, d)) /\ Le(dt2, DtMax) /\ (dt2 = d => d = DtMax)
+  ELSE LeC(d, dt2) /\ LeC(dt2, Mul(4, d)) /\ LeC(dt2, DtMax) /\ (dt2 = d => d = DtMax)
 ShrinkOk(d, dt2) ==
   IF Kind = "bdf" THEN dt2 = DivN(d, 2)
-  ELSE Lt(dt2, d) /\ Le(d, Mul(10, dt2))
+  ELSE LtC(dt2, d) /\ LeC(d, Mul(10, dt2))
 
 (***************************************************************************)
 (* Euler.  Yields the *old* point, then advances.                          *)
@@ -162,8 +169,8 @@ StartUp ==
               ELSE IF "ShortenRoundsUp" \in Defects THEN Plus(DivN(Minus(T1, time), H), 1)
               ELSE DivN(Minus(T1, time), H + 1)
      IN /\ dt' = d
-        /\ hist' = [i \in 1..H |-> Plus(time, Mul(i, d))]
-        /\ time' = Plus(time, Mul(H, d))
+        /\ hist' = [i \in 1..H |-> RepAdd(time, d, i)]
+        /\ time' = RepAdd(time, d, H)
   /\ saveTime' = time
   /\ phase' = "spec"
   /\ Silent /\ UNCHANGED <<k, noSent, stat>>
@@ -184,7 +191,7 @@ PcTrial(accept, grow, dt2) ==
                         ELSE dt' = dt /\ hist' = Tail(hist) \o <<time'>>
                    /\ UNCHANGED <<phase, k, saveTime, noSent, stat>>
        ELSE /\ ShrinkOk(dt, dt2)
-            /\ time' = (IF phase = "spec" THEN saveTime ELSE time)
+            /\ time' = (IF phase = "spec" THEN Minus(time, Mul(H, dt)) ELSE time)      \* = saveTime over ticks
             /\ dt' = dt2
             /\ IF Lt(dt2, DtMin)
                  THEN /\ stat' = "failed" /\ obs' = <<"err", "MinimumTimeDeltaExceeded">>
